@@ -180,6 +180,12 @@ func (e *Exec) reflectIntrinsic(name string, fn *ssa.Function, args []Value) (Va
 		return mkRType(types.NewMap(rtOf(args[0]), rtOf(args[1]))), true
 	case "reflect.SliceOf":
 		return mkRType(types.NewSlice(rtOf(args[0]))), true
+	case "reflect.ArrayOf":
+		n := args[0].(IntV)
+		if n.Sym != nil {
+			panic(unsupported{"reflect.ArrayOf with a symbolic length"})
+		}
+		return mkRType(types.NewArray(rtOf(args[1]), int64(n.C))), true
 	case "reflect.PointerTo", "reflect.PtrTo":
 		return mkRType(types.NewPointer(rtOf(args[0]))), true
 	case "reflect.DeepEqual":
